@@ -8,12 +8,23 @@ COQ_TIMEOUT = 1500
 def translate():
     """source -> coq/Gen/*.v (regenerated on every run; unchanged content keeps its .vo)"""
     import translate as T
-    return T.run()
+    import translate_proto as TP
+    res = T.run()
+    # part 2: prost attributes, type URLs, module tree -> Gen/Schema.v, Gen/RefSchema.v, Gen/ProtoTables.v and the
+    # harness's type registry. A source the translator cannot read is reported to the properties that use the tables.
+    try:
+        model = TP.run()
+        res["proto"] = TP.generate(model, os.path.join(COQ, "Gen"))
+        res["proto_model"] = model
+    except Exception as e:
+        res["proto_error"] = "%s: %s" % (type(e).__name__, e)
+    return res
 
 
 def coq_make(target="all"):
     with Lock("coq"):
-        if not os.path.exists(os.path.join(COQ, "Makefile")):
+        mk = os.path.join(COQ, "Makefile"); cp = os.path.join(COQ, "_CoqProject")
+        if not os.path.exists(mk) or os.path.getmtime(mk) < os.path.getmtime(cp):
             run("coq_makefile -f _CoqProject -o Makefile", cwd=COQ, check=True)
         rc, out, dt = run("timeout %d make -j16 %s" % (COQ_TIMEOUT, target), cwd=COQ)
         return rc, out, dt
@@ -21,7 +32,9 @@ def coq_make(target="all"):
 
 def coq_property(pid):
     """(re)compiles Properties/<pid>.v and returns (ok, log, theorems, assumptions)"""
-    rc, out, dt = coq_make("all")
+    # only what this property depends on (plus the extracted model): a broken obligation of another property's
+    # file is that property's alarm, not this one's
+    rc, out, dt = coq_make("Extract.vo Properties/%s.vo" % pid)
     vfile = os.path.join(COQ, "Properties", pid + ".v")
     src = open(vfile).read()
     theorems = re.findall(r"^(?:Theorem|Example)\s+(\w+)", src, re.M)
